@@ -3,7 +3,7 @@
   the first sequencer of maximal bond among the bonded, opted-in sequencers of the rollapp.
 -/
 import DymVerif.Lemmas.CoreRoles
-namespace DymVerif.Core
+namespace DymVerif.Core.Roles
 
 /-- the potential proposers of a rollapp, in address order -/
 def cands (s : St) (ra : Nat) : List Seq := s.seqs.filter (fun q => q.rollapp == ra && q.bonded && q.optedIn)
@@ -146,4 +146,4 @@ theorem choose_bondedOf {s : St} (u : Uniq s) {ra : Nat} {a : Addr} (h : choose 
   obtain ⟨q, hq, ha, hr, hb, _, _⟩ := choose_mem h
   exact ⟨q, ha ▸ getSeq_of_mem u.addrs hq, hb, hr⟩
 
-end DymVerif.Core
+end DymVerif.Core.Roles
